@@ -2,7 +2,7 @@
 import json, os, random, re, shutil, sys, time, zlib
 from . import common as C
 
-OUTS_ERR = ['err:7', 'err:-32600', 'err:-32700', 'err:plain', 'err:-32602', 'ctxerr']
+OUTS_ERR = ['err:7', 'err:-32600', 'err:-32700', 'err:plain', 'err:-32602', 'ctxerr', 'err:baddata']
 
 def cfg_opts(cfgname):
     t = C.read_cfg(cfgname)
@@ -38,6 +38,7 @@ def convert(beh, rng, name, opts, steer=True):
                               mem=[dict(k=x['k'], id=x['id'], m=x['m'], notey=x['notey'], var=rng.randrange(6)) for x in m['mem']]))
         elif act == 'PeerClose': steps.append(dict(a='peerclose'))
         elif act == 'RecvError': steps.append(dict(a='recverr'))
+        elif act == 'RecvClosing': steps.append(dict(a='recvclosing'))
         elif act == 'SendFails': steps.append(dict(a='sendfail'))
         elif act in ('RdProcess', 'RdFail'): steps.append(dict(a='gate', site='srv.read.lock'))
         elif act == 'DpLock': steps.append(dict(a='gate', site='srv.next.lock', soft=True))
@@ -90,6 +91,11 @@ def directed(rng):
     out = []
     def add(name, opts, steps):
         o = dict(conc=2, push=False, recvUnblocks=False); o.update(opts)
+        m = re.search(r'-(\d+)$', name)
+        if m and int(m.group(1)) % 2 == 1:
+            # odd instances spell every notification with an explicit "id":null (the same thing as no id at all)
+            steps = [dict(st, mem=[dict(x, var=1) if x.get('k') == 'note' and x.get('var', 0) == 0 else x for x in st['mem']]) if st.get('a') == 'send' and st.get('mem') else st
+                     for st in steps]
         out.append(dict(name='dir-' + name, seed=rng.randrange(1 << 30), opts=o, steps=steps))
     for v in range(3):
         # F1: id reuse after method-not-found / reserved method
@@ -124,6 +130,11 @@ def directed(rng):
         for conc in (1, 2, 3):
             add('note-then-call-c%d-%d' % (conc, v), {'conc': conc}, [S(note()), S(call(1)), D, hret('m1.1'), D, hret('m2.1'), D])
             add('note-then-note-c%d-%d' % (conc, v), {'conc': conc}, [S(note()), S(note()), S(call(1), call(2)), D, hret('m1.1'), D, hret('m2.1'), D, hret('m3.1'), hret('m3.2'), D])
+        # F13: a handler error that cannot be encoded must not suppress the reply of its batch
+        add('baddata-%d' % v, {}, [S(call(1), call(2)), D, hret('m1.1'), hret('m1.2', 'err:baddata'), D, S(call(1)), D, hret('m2.1', 'err:baddata'), D, S(note(), call(3)), D, hret('m3.1', 'err:baddata'), hret('m3.2'), D])
+        # every way a connection ends closes the channel exactly once: also a closing-class Recv error while the server runs
+        add('recv-closing-%d' % v, {'recvUnblocks': bool(v % 2)}, [S(call(1)), S(note()), D, dict(a='recvclosing'), D, hret('m1.1'), hret('m2.1'), D])
+        add('recv-closing-idle-%d' % v, {'push': bool(v % 2)}, [dict(a='recvclosing'), D, dict(a='stop'), D])
         # F2/F3: records after Stop
         add('f2-%d' % v, {}, [dict(a='stop'), D, dict(a='send', kind='garbage'), D])
         add('f2e-%d' % v, {}, [dict(a='stop'), D, dict(a='send', kind='empty'), D])
@@ -164,6 +175,10 @@ def directed(rng):
         add('cb-noctx-reply-%d' % v, P, [dict(a='callback', c='cbA', noctx=True), D, S(reply(1, v)), D, dict(a='callback', c='cbB', noctx=True), D, dict(a='recverr'), D])
         add('cb-mixed-%d' % v, P, [dict(a='callback', c='cbA'), D, S(reply(1, v), call(1)), D, hret('m1.2'), D])
         add('nopush-%d' % v, {}, [dict(a='callback', c='cbA'), dict(a='notify'), D, S(reply(1, v)), D])
+        # ... unconditionally: also once the connection has ended, and whatever the parameters are
+        add('nopush-ended-%d' % v, {'recvUnblocks': bool(v % 2)}, [S(call(1)), D, [dict(a='stop'), dict(a='peerclose'), dict(a='recverr')][v], D, dict(a='callback', c='cbA'), dict(a='notify'), D,
+                                                                  hret('m1.1'), D, dict(a='callback', c='cbB'), dict(a='notify'), D])
+        add('nopush-badparams-%d' % v, {}, [dict(a='badpush'), dict(a='callback', c='cbA'), dict(a='notify'), D, dict(a='stop'), D, dict(a='callback', c='cbB'), dict(a='notify'), D])
         add('invalid-mix-%d' % v, {'push': bool(v % 2)}, [S(call(1), inv(2, False, v), inv(0, True, v), inv(0, False, v), note('nf')), D, hret('m1.1'), D,
                                                           S(inv(0, False, v)), S(inv(3, False, v + 1)), D])
         add('info-%d' % v, {'conc': 1}, [S(call(1)), D, S(call(2, 'info')), D, hret('m1.1'), D])
@@ -176,7 +191,7 @@ FAMILY = {
     'C06': (['srv_c06'], ['srv_c06', 'srv_c03', 'srv_c07b', 'srv_c06c3'], ['srv_c06', 'srv_c03', 'srv_c07b', 'srv_c06c3', 'srv_c03c1'], 45),
     'C07': (['srv_c07q'], ['srv_c07', 'srv_c03', 'srv_c07b'], ['srv_c07', 'srv_c06', 'srv_c07b'], 45),
     'C08': (['srv_c08q', 'srv_live'], ['srv_c08', 'srv_c08u', 'srv_live'], ['srv_c08', 'srv_c08u', 'srv_c08r'], 50),
-    'C09': (['srv_c09'], ['srv_c09', 'srv_c09b', 'srv_c09r'], ['srv_c09', 'srv_c09b', 'srv_c09r'], 45),
+    'C09': (['srv_c09', 'srv_c09n'], ['srv_c09', 'srv_c09b', 'srv_c09r', 'srv_c09n'], ['srv_c09', 'srv_c09b', 'srv_c09r', 'srv_c09n'], 45),
 }
 
 # model sensitivity: with the repair of a finding switched off TLC must find the violation (else exit 2)
@@ -206,6 +221,18 @@ def cover_scenarios(prop, seed):
     scs = [convert(b, rng, '%s-cover-%s-%d' % (prop, cfg, i), dict(opts), steer=True) for i, b in enumerate(behs)]
     return scs, dict(cover_cfg=cfg, cover_edges=nedges, cover_states=nstates, cover_paths=len(scs))
 
+def add_probes(sc, rng, n=2):
+    """Insert in-operation probes: a goroutine is parked inside Channel.Send (or Close) while everything else is let loose."""
+    sc = dict(sc); steps = list(sc['steps'])
+    firsts = [i for i, s in enumerate(steps) if s['a'] in ('send', 'op', 'peer', 'callback', 'notify')]
+    if not firsts:
+        return sc
+    for _ in range(n):
+        pos = rng.randrange(firsts[0] + 1, len(steps) + 1)
+        steps.insert(pos, dict(a='probe', kind='close' if rng.random() < 0.15 else 'send'))
+    sc['steps'] = steps; sc['name'] += '-p'
+    return sc
+
 def gen_scenarios(prop, tier, seed, nsim):
     rng = random.Random(seed * 7919 + zlib.crc32(prop.encode()) % 1000)
     _, _, simcfgs, depth = FAMILY[prop]
@@ -225,6 +252,13 @@ def gen_scenarios(prop, tier, seed, nsim):
         for d in directed(rng):
             d = dict(d); d['name'] += '-s%d' % k; d['seed'] = rng.randrange(1 << 30)
             scs.append(d)
+    if prop == 'C01':
+        # the harness channel is safe for one sender only (harness/vh/vchan.go): with a goroutine parked inside Send, a reply
+        # written by anybody else at that moment shows up as a duplicated / missing response
+        # (only scenarios that are not steered step by step: a probe lets everything loose, the model's state would no longer apply)
+        free = [i for i, sc in enumerate(scs) if not any('proj' in st for st in sc['steps'])]
+        for i in free[::2]:
+            scs[i] = add_probes(scs[i], rng)
     return scs
 
 SERVER_EVENTS = None  # all events are passed; the contract ignores the channel brackets
